@@ -45,6 +45,7 @@ func main() {
 			*verif = "/verif"
 		}
 	}
+	verifDirGlobal = *verif
 	start := time.Now()
 	var overlay map[string][]byte
 	if ov := os.Getenv("FXCHECK_OVERLAY"); ov != "" {
